@@ -152,9 +152,9 @@ def mon_c20(spec, run):
     tr = run.trace
     N = spec.get("log_size", 0)
     # ground truth from the port: writes (Send) and received lines (Received), by trace sequence
-    items = []   # (seq, kind, text)
+    items = []   # (seq, sub-index, kind, text)
     for t, d, seq in writes(tr):
-        items.append((seq, "Send", d[:-2].decode("utf-8", "replace") if d.endswith(b"\r\n") else d.decode("utf-8", "replace")))
+        items.append((seq, 0, "Send", d[:-2].decode("utf-8", "replace") if d.endswith(b"\r\n") else d.decode("utf-8", "replace")))
     buf = bytearray()
     for e in tr:
         if e["k"] == "read" and e["data"]:
@@ -162,8 +162,9 @@ def mon_c20(spec, run):
             while b"\r\n" in buf:
                 raw, _, rest = bytes(buf).partition(b"\r\n")
                 buf = bytearray(rest)
-                items.append((e["seq"], "Received", raw.decode("utf-8", "replace")))
-    items.sort()
+                items.append((e["seq"], len(items), "Received", raw.decode("utf-8", "replace")))
+    items.sort(key=lambda x: (x[0], x[1]))
+    items = [(a, c, d) for a, _b, c, d in items]
     sends = [x for x in items if x[1] == "Send"]
     recvs = [x for x in items if x[1] == "Received"]
     for c in calls(tr):
@@ -259,8 +260,6 @@ def mon_c09_msg(spec, run):
     for c in cs:
         if c["op"][0] in ("reg", "unreg"):
             regs.setdefault(c["op"][1], []).append(c)
-    for cb in spec.get("pre_register", []):
-        regs.setdefault(cb, []).insert(0, {"op": ["reg", cb], "call": 0, "ret": 0})
     close_calls = [c for c in cs if c["op"][0] == "close"]
     close_ret = min([c["ret"] for c in close_calls if c["ret"] is not None], default=None)
     close_call = min([c["call"] for c in close_calls], default=None)
